@@ -24,7 +24,8 @@ SPEC = {
              'description, or a let/variable participates in the winner; distinct by digest'),
     'exhaustive': {'quick': False, 'thorough': False},
     'required_counters': ['ref_triple_checks', 'selfconsistency_checks', 'meta_drop_false', 'meta_after_winner', 'meta_insert_false',
-                          'meta_unmatched_variation', 'production_path_checks', 'csv_path_checks'],
+                          'meta_unmatched_variation', 'production_path_checks', 'csv_path_checks', 'pipeline_path_checks',
+                          'pipeline_twins_with_different_triples'],
     'assumptions': ['conditions are well-typed (failing conditions are property C08); no variable refers to another variable',
                     '[date:lastNdays] is excluded (depends on today); CSV [amount=N] is not probed within 0.01 of N',
                     'letters have a simple one-to-one case mapping'],
@@ -154,6 +155,51 @@ def judge_file(rec, rf, txns, rows, tmp, rnd, deep=True):
                 pass
 
 
+def judge_pipeline(rec, rf, txns, rows, tmp, rnd, ptxns=None):
+    """The same oracle at the statement-reading pipeline (parse_generic_csv): every row of a file - including rows that repeat
+    another row's description, amount and date and differ only in custom columns - gets the triple of ITS first matching rule."""
+    text = R.render(rf)
+    path = O.write(os.path.join(tmp, 'm.rules'), text)
+    try:
+        prules, ptrans = O.production_load(path)
+    except Exception:
+        return
+    if ptxns is None:
+        ptxns = O.pipeline_txns(txns, rnd)
+    if not ptxns:
+        return
+    case = {'kind': 'pipeline', 'rf': rf.to_json(), 'rows': rows, 'txns': [O.jtxn(t) for t in ptxns]}
+    refs = []
+    try:
+        for t in ptxns:
+            refs.append(R.ref_match(rf, t, rows))
+    except R.OutOfDomain:
+        rec.count('out_of_domain')
+        return
+    try:
+        got = O.pipeline_results(prules, ptrans, ptxns, rows, tmp)
+    except O.ImplError as e:
+        rec.violation('impl-raises:' + type(e.exc).__name__, str(e)[:300], case)
+        return
+    if len(got) != len(ptxns):
+        rec.violation('pipeline-row-count', f'{len(got)} transactions read from {len(ptxns)} well-formed rows', case)
+        return
+    seen = {}
+    for t, r, g in zip(ptxns, refs, got):
+        rec.case()
+        rec.count('pipeline_path_checks')
+        k = (t['description'], t['amount'], t['date'])
+        if k in seen and seen[k] != r['triple']:
+            rec.count('pipeline_twins_with_different_triples')
+            rec.interesting(['pipe-twin', core.digest(rf.to_json()), core.digest(O.jtxn(t))])
+        seen.setdefault(k, r['triple'])
+        if g['triple'] != r['triple']:
+            rec.violation('pipeline-triple-differs-from-reference',
+                          f'parse_generic_csv: row {t["description"]!r} amount={t["amount"]} field={t["field"]} location={t["location"]!r} got '
+                          f'{g["triple"]}, first matching categorizing rule gives {r["triple"]}', case)
+            break
+
+
 def judge_csv(rec, crules, txns, tmp, rnd):
     text = R.render_csv(crules, rnd)
     path = O.write(os.path.join(tmp, 'merchant_categories.csv'), text)
@@ -199,7 +245,9 @@ def run(rec, shard, nshards, t):
             rf = gen.rule_file()
             rows = world.ROWSETS[0] if rnd.random() < .7 else rnd.choice(world.ROWSETS)
             txns = world.pool(rnd, ntx)
+            txns += world.field_twins(rnd, txns)
             judge_file(rec, rf, txns, rows, tmp, rnd, deep=True)
+            judge_pipeline(rec, rf, txns, rows, tmp, rnd)
             if i < 1 and shard == 0:
                 rec.sample({'rules_file': R.render(rf), 'txn': O.jtxn(txns[0])})
         ncsv = (100 if t == 'quick' else 2000) // nshards
@@ -218,7 +266,9 @@ def replay(rec, case):
     tmp = tempfile.mkdtemp(prefix='vt-c01-')
     try:
         txns = [O.untxn(x) for x in case['txns']]
-        if case['kind'] == 'csv':
+        if case['kind'] == 'pipeline':
+            judge_pipeline(rec, R.RuleFile.from_json(case['rf']), None, case['rows'], tmp, rnd, ptxns=txns)
+        elif case['kind'] == 'csv':
             judge_csv(rec, [R.CsvRule.from_json(r) for r in case['rules']], txns, tmp, None)
         else:
             judge_file(rec, R.RuleFile.from_json(case['rf']), txns, case['rows'], tmp, rnd)
